@@ -35,7 +35,7 @@ func generate(w *mon.W) {
 	pipecheck.InstallSplitObserver(w)
 	nInst := w.Pick(3, 6)
 	rng := gen.RNG(w.Seed, "c03")
-	n := w.Pick(4_000, 120_000)
+	n := w.Pick(7_000, 160_000)
 	pre := []string{"where", "project", "extend", "sort", "take", "top", "as", "summarize", "render", "count"}
 	for i := 0; i < n && !w.Stopped(); i++ {
 		var seq []string
@@ -68,6 +68,8 @@ func generate(w *mon.W) {
 			p = namedThenNarrowed(rng)
 		case 5:
 			p = manyConditions(rng, 1+(i/9)%10)
+		case 6:
+			p = pairedConditions(rng, (i/9)%6)
 		}
 		c := &pipecheck.Case{Pipe: p}
 		for k := 0; k < nInst; k++ {
@@ -220,6 +222,38 @@ func manyConditions(rng interface{ Intn(int) int }, n int) *Pipe {
 	start := rng.Intn(len(pool))
 	for i := 0; i < n; i++ {
 		conds = append(conds, pool[(start+i*5)%len(pool)])
+	}
+	kind := []string{"", "inner", "leftouter", "innerunique"}[rng.Intn(4)]
+	p.Ops = append(p.Ops, &Op{K: "join", Kind: kind, Right: &Pipe{Table: Ident{Name: "U"}}, Conds: conds})
+	if rng.Intn(2) == 0 {
+		p.Ops = append(p.Ops, &Op{K: "count"})
+	}
+	return p
+}
+
+// pairedConditions: two conditions over the same two column names: crosswise,
+// the same one twice, one reversed, a bare key with its explicit spelling.
+func pairedConditions(rng interface{ Intn(int) int }, form int) *Pipe {
+	l := func(c string) *E { return Name("$left", c) }
+	r := func(c string) *E { return Name("$right", c) }
+	var conds []*E
+	switch form {
+	case 0:
+		conds = []*E{Bin("==", l("k"), r("j")), Bin("==", l("j"), r("k"))}
+	case 1:
+		conds = []*E{Bin("==", l("j"), r("k")), Bin("==", l("k"), r("j")), Name("k")}
+	case 2:
+		conds = []*E{Bin("==", l("k"), r("j")), Bin("==", l("k"), r("j"))}
+	case 3:
+		conds = []*E{Bin("==", l("k"), r("j")), Bin("==", r("j"), l("k"))}
+	case 4:
+		conds = []*E{Name("k"), Bin("==", l("k"), r("k")), Name("j")}
+	default:
+		conds = []*E{Bin("==", r("k"), l("j")), Bin("==", r("j"), l("k"))}
+	}
+	p := &Pipe{Table: Ident{Name: "T"}}
+	if rng.Intn(2) == 0 {
+		p.Ops = append(p.Ops, &Op{K: "where", X: Bin(">=", Name("id"), Num("0"))})
 	}
 	kind := []string{"", "inner", "leftouter", "innerunique"}[rng.Intn(4)]
 	p.Ops = append(p.Ops, &Op{K: "join", Kind: kind, Right: &Pipe{Table: Ident{Name: "U"}}, Conds: conds})
